@@ -135,6 +135,9 @@ def build(cfg):
             vals = vo.observed_values
             vo = jinns.data.DataGeneratorObservations(jax.random.PRNGKey(cfg["seed"] + 9), vo.obs_batch_size, vo.observed_pinn_in,
                                                       vals.at[::3].set(jnp.nan))
+        if vo is not None and v.get("huge_obs"):
+            # validation observations of size 1e20: finite criteria above 1e38 (the first one is still a strict new minimum)
+            vo = jinns.data.DataGeneratorObservations(jax.random.PRNGKey(cfg["seed"] + 9), vo.obs_batch_size, vo.observed_pinn_in, vo.observed_values * 1e20)
         validation = jinns.validation.ValidationLoss(loss=L, validation_data=gv, validation_param_data=vp, validation_obs_data=vo, call_every=v["every"],
                                                      early_stopping=v["early"], patience=v["patience"])
     return dict(u=u, P=P, L=L, g=g, pg=pg, og=og, opt=opt, tracked=tracked, validation=validation)
@@ -237,8 +240,12 @@ def run_solve(cfg, pb=None, start=None):
     jax, jnp, np, eqx, jinns = jx()
     pb = pb or build(cfg)
     P, st, g = (pb["P"], None, pb["g"]) if start is None else start
+    kw = {}
+    if cfg.get("sharding") and pb["og"] is not None:
+        # the optional obs_batch_sharding argument routes training through the non-compiled loop: same textbook loop
+        kw["obs_batch_sharding"] = jax.sharding.SingleDeviceSharding(jax.devices()[0])
     return jinns.solve(n_iter=cfg["n"], init_params=P, data=g, loss=pb["L"], optimizer=pb["opt"], opt_state=st,
-                       param_data=pb["pg"], obs_data=pb["og"], tracked_params=pb["tracked"], validation=pb["validation"], verbose=False)
+                       param_data=pb["pg"], obs_data=pb["og"], tracked_params=pb["tracked"], validation=pb["validation"], verbose=False, **kw)
 
 
 def close(a, b):
